@@ -17,7 +17,7 @@ Driver for C09. One input line per call of the real `Bundle.Fragment` (blank sep
   blocks   "-" or comma list  <num>:<type>:<replicate>:<priced>:<actual>   (bundle order, payload excluded)
   payload  hex
   res      err:mnf | err:overhead | err:empty | err:invalid | err:other | panic | hang | empty | self |
-           ';' list of fragments  <off>:<total>:<plen>:<size>:<flags>:<ident>:<blocks>:<sliceok>:<payloadhex>
+           ';' list of fragments  <off>:<total>:<plen>:<size>:<flags>:<ident>:<blocks>:<sliceok>:<valid>:<payloadhex>
            ident = five 0/1 digits (source, timestamp, destination, report-to, lifetime equal to the input's)
            blocks = "-" or '.' list  <num>/<type>/<len>/<same>
   reasm    na | <good>/<n>[:<first failure: err|panic|differs>]   Go ReassembleFragments on n shuffles,
@@ -65,10 +65,10 @@ def parseFBlocks (s : String) : Option (List (Nat × Nat × Nat × Nat)) :=
 
 def parseFrag (s : String) : Option GoFrag :=
   match s.splitOn ":" with
-  | [o, t, l, sz, fl, id, bl, sl, hx] =>
+  | [o, t, l, sz, fl, id, bl, sl, va, hx] =>
     match nat? o, nat? t, nat? l, nat? sz, nat? fl, parseFBlocks bl, parseHex hx with
     | some o, some t, some l, some sz, some fl, some bl, some d =>
-      some { obs := { off := o, total := t, len := l, size := sz, flags := fl, identOk := id == "11111",
+      some { obs := { off := o, total := t, len := l, size := sz, flags := fl, valid := va == "1", identOk := id == "11111",
                       types := bl.map (·.2.1), blocksOk := bl.all (·.2.2.2 == 1) && sl == "1", data := d },
              nums := bl.map (·.1), lens := bl.map (·.2.2.1) }
     | _, _, _, _, _, _, _ => none
